@@ -218,6 +218,7 @@ func (e *Engine) Exec(tx Tx) *Report {
 	rep.OK = res[0].OK()
 	rep.Deps = append([]chain.DepCall(nil), e.C.Deps.Log...)
 	rep.Ops = append([]chain.StoreOp(nil), e.C.Store.Ops...)
+	e.C.Store.Reset()
 	e.C.Store.Phase = "query"
 	post := e.C.DumpAll()
 	rep.PreHash, rep.PostHash = chain.HashDump(e.prev), chain.HashDump(post)
